@@ -12,8 +12,9 @@ on that lattice).
   (d) `netWrite` / `netRead`   io/network_writer.py `writeToCsv`, io/network_reader.py `readFromFile`,
       `readLineAndAddToNetwork`, `wktLineStringToObs`, core/network.py `addEdge` (node table)
   (e) `toWKT` / `parseWkt`     core/track.py `Track.toWKT`, io/track_reader.py `TrackReader.parseWkt`
-  (f) `gpxBody` / `readGpx`    io/track_writer.py `writeToGpx` (from the first `<trk>` line on),
-      io/track_reader.py `__readFromGpx` (type `trk`)
+  (f) `gpxBody` / `gpxBodyAF` / `readGpx`    io/track_writer.py `writeToGpx` (from the first `<trk>` line on; with
+      `af=True` the `<extensions>` block of every point), io/track_reader.py `__readFromGpx` (type `trk`)
+  (b') `readAll` / `readCsvAll`   the `read_all` part of `__readFromCsv` (feature columns named by the header block)
 
 Python exceptions are the `Except` error strings `index` (IndexError), `value` (ValueError),
 `arg` (WrongArgumentError), `type` (TypeError). -/
@@ -589,6 +590,10 @@ abbrev Pt := Int × Int
 def toWKT (d : Nat) (pts : List Pt) : Str :=
   "LINESTRING(".toList ++ joinChar ',' (pts.map (fun p => reprDec d p.1 ++ [' '] ++ reprDec d p.2)) ++ [')']
 
+/-- `Track.toWKT()` for an ECEF track of `n` points: neither branch of the SRID test applies, so no coordinate is written,
+only the commas -/
+def toWKTEcef (n : Nat) : Str := "LINESTRING(".toList ++ List.replicate (n - 1) ',' ++ [')']
+
 /-- the vertex loop shared by `parseWkt` and `wktLineStringToObs`: `strip().split(" ")`, `float` of
 the first two (and of a third when there are exactly three) items -/
 def parseVertex (s : Str) : Except String (Dec × Dec × Dec) := do
@@ -609,12 +614,35 @@ def wktCoords (wkt : Str) : Except String (List Str) := do
   let b ← nth (splitOnChar ')' a) 0
   return splitOnChar ',' b
 
-/-- `TrackReader.parseWkt` on a `LINESTRING` -/
+/-- `s.split("ab")` for a two-character separator (left to right, non-overlapping) -/
+def splitOn2 (a b : Char) : Str → List Str
+  | [] => [[]]
+  | [x] => [[x]]
+  | x :: y :: r =>
+    if x = a ∧ y = b then [] :: splitOn2 a b r
+    else match splitOn2 a b (y :: r) with
+      | [] => [[x]]
+      | h :: t => (x :: h) :: t
+
+/-- `wkt.split("((")[1].split("))")[0].split(",")` -/
+def wktCoordsPoly (wkt : Str) : Except String (List Str) := do
+  let a ← nth (splitOn2 '(' '(' wkt) 1
+  let b ← nth (splitOn2 ')' ')' a) 0
+  return splitOnChar ',' b
+
+/-- `TrackReader.parseWkt`: `POLYGON((…))` (outer ring up to the first `))`), `LINESTRING(…)`; the `MULTIPOLYGON` branch
+calls `.split` on a list (AttributeError) once its two index operations succeeded; any other text is a WrongArgumentError -/
 def parseWkt (wkt : Str) : Except String (List (Dec × Dec × Dec)) := do
   let w := toUpper wkt
-  if w.take 4 == "LINE".toList then
+  if w.take 4 == "POLY".toList then
+    let cs ← wktCoordsPoly w
+    cs.mapM parseVertex
+  else if w.take 4 == "LINE".toList then
     let cs ← wktCoords w
     cs.mapM parseVertex
+  else if w.take 7 == "MULTIPO".toList then
+    let _ ← wktCoordsPoly w
+    throw "AttributeError"
   else throw "arg"
 
 /-! ### (d) network CSV -/
@@ -747,6 +775,20 @@ def gpxLines (name : Str) (rows : List GRow) : List Str :=
 contains the current time); coordinates `{:3.8f}` of `n / 10^8`, zone 0 (`Z`), time printed with
 `4Y-2M-2DT2h:2m:2s` -/
 def gpxBody (name : Str) (rows : List GRow) : Str := ((gpxLines name rows).map (· ++ ['\n'])).flatten
+
+/-! `writeToGpx(..., af=True)`: after `<time>` every track point carries an `<extensions>` block with one line per
+analytical feature of the track, `<name>str(value)</name>` -/
+def lExt : Str := "                <extensions>".toList
+def lAf (n : Str) (v : AFVal) : Str :=
+  "                    <".toList ++ (n ++ ('>' :: (afText v ++ ('<' :: '/' :: (n ++ ['>'])))))
+def lEndExt : Str := "                </extensions>".toList
+def extLines (afs : List (Str × AFVal)) : List Str := [lExt] ++ afs.map (fun a => lAf a.1 a.2) ++ [lEndExt]
+def ptLinesAF (r : GRow) (afs : List (Str × AFVal)) : List Str := [lPt r, lEle r, lTime r] ++ extLines afs ++ [lEndPt]
+def gpxLinesAF (name : Str) (rows : List (GRow × List (Str × AFVal))) : List Str :=
+  [lTrk, lName name, lSeg] ++ (rows.map (fun ra => ptLinesAF ra.1 ra.2)).flatten ++ [lEndSeg, lEndTrk, lEndGpx]
+/-- `writeToGpx(track, path, af=True)` for one track, from the `<trk>` line on -/
+def gpxBodyAF (name : Str) (rows : List (GRow × List (Str × AFVal))) : Str :=
+  ((gpxLinesAF name rows).map (· ++ ['\n'])).flatten
 
 structure GState where
   inTrk : Bool := false
